@@ -199,3 +199,38 @@ def r4(rr, repo):
             after_save = not saves or saves[0].lineno < tr.lineno
             rr.ob('nothing between the replacement and the try can raise and skip the restore', after_save and not [s for s in fn.body if saves and saves[0].lineno < getattr(s, 'lineno', 0) < tr.lineno], cmod, tr, key='no-gap')
     rr.ob('Filter.normalize_config is restored in a finally block', ok, cmod, restores[0] if restores else fn, key='restored')
+
+
+@rule('C12.R5', 'an explicitly empty --sources / --outputs stays the user\'s choice: in the auto-chaining loop the "did the user say anything about this key" tests run on the configuration as the user wrote it, '
+                'i.e. before the step that turns "present but empty" into "absent"')
+def r5(rr, repo):
+    cmod, pf = repo.find(f'{CLI}::parse_filters')
+    loops = [n for n in walk_scope(pf) if isinstance(n, ast.For) and any(isinstance(x, ast.Assign) and any(U(t) == 'last_source' for t in x.targets) for x in ast.walk(n))]
+    if len(loops) != 1:
+        raise Unresolved(f'{CLI}: parse_filters: cannot identify the auto-chaining loop ({len(loops)} candidates)')
+    loop = loops[0]
+    cfg = None
+    for st in ast.walk(loop):
+        if isinstance(st, ast.Delete):
+            for t in st.targets:
+                if isinstance(t, ast.Attribute) and t.attr in ('sources', 'outputs') and isinstance(t.value, ast.Name):
+                    cfg = t.value.id
+    if cfg is None:
+        raise Unresolved(f'{CLI}: parse_filters: the auto-chaining loop has no "present but empty -> absent" step')
+    n = 0
+    for key in ('sources', 'outputs'):
+        dels = [st for st in ast.walk(loop) if isinstance(st, ast.Delete) and any(U(t) == f'{cfg}.{key}' for t in st.targets)] + \
+               [c for c in q.calls_in(loop) if isinstance(c.func, ast.Attribute) and c.func.attr == 'pop' and U(c.func.value) == cfg and c.args and q.const_str(c.args[0]) and c.args[0].value == key]
+        tests = [c for c in ast.walk(loop) if isinstance(c, ast.Compare) and len(c.ops) == 1 and isinstance(c.ops[0], (ast.In, ast.NotIn)) and q.const_str(c.left) and c.left.value == key and U(c.comparators[0]) == cfg]
+        rr.floor(f'presence tests of {key!r} in the auto-chaining loop', len(tests), 2, cmod, loop)
+        for d in dels:
+            dstmt = q.enclosing_stmt(d)
+            own = {id(t) for t, pol in q.guards_of(d, stop=loop) for t in ast.walk(t)}
+            for t in tests:
+                if id(t) in own:
+                    continue       # the test that decides the deletion itself
+                n += 1
+                before = (t.lineno, t.col_offset) < (d.lineno, d.col_offset)
+                rr.ob(f'the test {U(t)!r} (did the user mention {key}?) is evaluated before "present but empty" is turned into "absent" - afterwards an explicit empty switch looks like no switch and the filter is auto-chained / given an output anyway',
+                      before, cmod, t, witness=f'test at line {t.lineno}, deletion at line {d.lineno}', key=f'presence-before-normalise|{key}')
+    rr.floor('ordered (test, normalisation) pairs', n, 2, cmod, loop)
